@@ -177,7 +177,11 @@ func lossyCollection(r *vk.Run) {
 						for i := range ss {
 							ss[i].Permit = (pat >> i) & 1
 						}
-						colScenario(r, kind, withInit, ss, false)
+						colScenario(r, kind, withInit, ss, false, false)
+						if !withInit && len(ss) <= 3 {
+							// the same history for an updates-only subscriber (no seed): it is lossy too unless backpressure is asked for
+							colScenario(r, kind, withInit, ss, false, true)
+						}
 					}
 				}
 				if len(seq) == maxLen {
@@ -209,7 +213,7 @@ func lossyCollection(r *vk.Run) {
 	}
 }
 
-func colScenario(r *vk.Run, kind string, withInit bool, steps []step, bp bool) {
+func colScenario(r *vk.Run, kind string, withInit bool, steps []step, bp bool, updatesOnly bool) {
 	var opts []resource.Option
 	opts = append(opts, resource.WithClock(clk{}))
 	var initA *tat
@@ -225,12 +229,15 @@ func colScenario(r *vk.Run, kind string, withInit bool, steps []step, bp bool) {
 	if bp {
 		mode = "bp"
 	}
+	if updatesOnly {
+		mode += "+updatesOnly"
+	}
 	desc := fmt.Sprintf("%s/%s init=%v %s", kind, mode, withInit, renderSteps(steps))
-	replay := map[string]any{"kind": kind, "init": withInit, "steps": steps, "bp": bp}
+	replay := map[string]any{"kind": kind, "init": withInit, "steps": steps, "bp": bp, "updatesOnly": updatesOnly}
 	if kind == "pull" {
-		c.runCol(col.Pull(ctx, resource.WithBackpressure(bp)))
+		c.runCol(col.Pull(ctx, resource.WithBackpressure(bp), resource.WithUpdatesOnly(updatesOnly)))
 	} else {
-		c.runVal(col.PullID(ctx, "a", resource.WithBackpressure(bp)))
+		c.runVal(col.PullID(ctx, "a", resource.WithBackpressure(bp), resource.WithUpdatesOnly(updatesOnly)))
 	}
 	defer c.stop()
 	if withInit {
